@@ -45,7 +45,7 @@ def expected_number(value):
 def read_rows(path, sheet=1):
     m = harness.modules()
     try:
-        return "rows", [list(r) for r in m["rowio"].excel_rows(path, sheet)]
+        return "rows", [list(r) for r in list(m["rowio"].excel_rows(path, sheet))]
     except m["errors"].DataFormatError as error:
         return "DataFormatError", str(error)
     except Exception as error:
@@ -198,7 +198,7 @@ def judge_sheets(case, part):
         part.fail("sheets|excel_rows-reads-wrong-sheet" if outcome == "rows" and requested <= count else "sheets|missing-sheet:" + outcome, case, expected, observed if outcome == "rows" else rows)
     cid_rows = [["D", "Format", "Excel"], ["D", "Sheet", str(requested)], ["F", "a", "", "", "", "Text"], ["F", "b", "", "X", "", "Text"]]
     try:
-        back = [list(r) for r in cutplace.rows(harness.make_cid(cid_rows), path)]
+        back = [list(r) for r in list(cutplace.rows(harness.make_cid(cid_rows), path))]
     except m["errors"].DataFormatError:
         back = "DataFormatError"
     except Exception as error:
